@@ -207,11 +207,17 @@ fn ser_named_type(ty: &OwnedDataModelType, value: &Value, out: &mut Vec<u8>) -> 
                 ser_named_type(ty, value, out)?;
             }
         }
-        OwnedDataModelType::Unit => {}
-        OwnedDataModelType::Struct {
+        // unit and unit structs are `null` in JSON; accepting anything else would let `Some(())`-like
+        // values through that decode back to `null` and re-encode differently
+        OwnedDataModelType::Unit
+        | OwnedDataModelType::Struct {
             name: _,
             data: OwnedData::Unit,
-        } => {}
+        } => {
+            if !value.is_null() {
+                return Err(Error::SchemaMismatch);
+            }
+        }
         OwnedDataModelType::Struct {
             name: _,
             data: OwnedData::Newtype(ty),
